@@ -537,6 +537,17 @@ class Canon:
                            if any(at.text in self.assume and self.assume[at.text] != p for at, p in implied(test, pol)) or
                            _eval3(literals(test), self.assume) not in (None, pol)]
             self.infeasible = set(self.g.stmt) - self.g.reachable(0, skip_edges=self.contra)
+        # names of containers that are changed in place (item stores, mutating methods): their literal definition does not say what
+        # they contain later on
+        self.mutated = set()
+        for x in ast.walk(self.fn.node):
+            if isinstance(x, (ast.Subscript, ast.Attribute)) and isinstance(x.ctx, (ast.Store, ast.Del)) and isinstance(x.value, ast.Name):
+                self.mutated.add(x.value.id)
+            elif isinstance(x, ast.Call) and isinstance(x.func, ast.Attribute) and isinstance(x.func.value, ast.Name) and \
+                    x.func.attr in ('append', 'extend', 'insert', 'pop', 'update', 'sort', 'reverse', 'clear', 'remove', 'add', 'discard', 'setdefault', 'popitem'):
+                self.mutated.add(x.func.value.id)
+            elif isinstance(x, ast.AugAssign) and isinstance(x.target, ast.Name):
+                pass
         self.sites = {}     # name -> [(cfg node, value expr | OPAQUE, sel)]
         for n, st in self.g.stmt.items():
             if st is None:
@@ -639,9 +650,13 @@ class Canon:
             if len(rd) != 1 or rd[0] is None or rd[0][1] is self.OPAQUE:
                 return e
             dn, v, sel = rd[0]
+            if e.id in self.mutated and isinstance(v, (ast.List, ast.Dict, ast.Set, ast.ListComp, ast.DictComp, ast.SetComp)):
+                return e            # a container that is filled / changed in place: its display is not its value at the use
             sub = self._sub(v, dn, depth - 1, frozenset())
             if sel is None:
                 return sub
+            if isinstance(v, ast.Name) and v.id in self.mutated and isinstance(sub, ast.Name):
+                return self._fold(ast.Subscript(value=sub, slice=ast.Constant(value=sel), ctx=ast.Load()))
             if isinstance(sub, (ast.Tuple, ast.List)) and sel < len(sub.elts) and not any(isinstance(x, ast.Starred) for x in sub.elts):
                 return sub.elts[sel]
             return self._fold(ast.Subscript(value=sub, slice=ast.Constant(value=sel), ctx=ast.Load()))
